@@ -194,6 +194,8 @@ class VTask(Task):
         beh = (stage.context.get("vf") or {}).get(tname) or {"kind": "ok"}
         kind = beh.get("kind", "ok")
         ref = stage.ref_id
+        if ref not in w.refs:
+            ref = "built:" + stage.name  # a synthetic stage created at plan time: its ref_id is a fresh ULID, its name is stable
         nth = w.ledger.count(ref, tname)  # executions of this task so far (harness memory)
         entry = w.ledger.add(
             ref=ref,
